@@ -320,3 +320,13 @@ Theorem C06_load_keeps_referrers_real :
                  In e (origins_of x p) \/ exists pos, In (p, pos) (refs_of RT [] root) /\ it_at t pos = Some e) /\
     (forall m2, m2 <> m -> nth_opt (w_models w') (N.to_nat m2) = nth_opt (w_models w) (N.to_nat m2)).
 Proof. exact load_buffer_origins_real. Qed.
+
+(* [F] not vacuous: in the loader model the second load of the same document is a merge that is accepted; referrer 13 of the
+   first load stays registered, the reference element 26 of the second file is appended *)
+Theorem C06_load_keeps_referrers_example :
+  exists xa xb,
+    load_parsed tiny LATEST 99 0 (BS "a") file_a (pstate_of tiny 2 file_a) new_world = Val (OK 0, w_load_a) /\
+    load_parsed tiny LATEST 99 0 (BS "b") file_a (pstate_of tiny 2 file_a) w_load_a = Val (OK 1, w_load_b) /\
+    model_at w_load_a 0 = Some xa /\ model_at w_load_b 0 = Some xb /\ m_files xa = [0] /\ NoDupKeys (m_origins xa) /\
+    origins_of xa (BS "/p1/S") = [13] /\ origins_of xb (BS "/p1/S") = [13; 26].
+Proof. exact load_extends_referrers_example. Qed.
